@@ -1302,6 +1302,9 @@ def from_objects_case(sc, base, target, rng, out):
                 out["cases"].append((tc, True))
                 out["t2"].append((tc, "verify %s %s" % (hexo(calc), hexo(mut)), "T" if v == "verified" else "F"))
                 out["count"]["patch-benign:%s" % v] += 1
+                if v != "verified" and norm_py(mut) == norm_py(stored):
+                    out["viol"].append((tc, "a patch that differs from the regenerated diff only in line endings / trailing "
+                                            "spaces (documented as tolerated) is reported as %s" % v, None))
             for _ in range(4):
                 pos = rng.randrange(len(stored)) if stored else 0
                 if not stored:
